@@ -37,6 +37,7 @@ func (v *visLog) emit(ev map[string]any) {
 }
 
 type stressCfg struct {
+	Engine     string `json:"engine"` // measure (default) | stream
 	Lifecycle  string `json:"lifecycle"`
 	Visibility string `json:"visibility"`
 	Millis     int    `json:"millis"`
@@ -50,6 +51,10 @@ func runStress(cfgJSON string, res *vlib.Result) {
 	var sc stressCfg
 	if err := json.Unmarshal([]byte(cfgJSON), &sc); err != nil {
 		res.Inconclusive = append(res.Inconclusive, "bad cfg: "+err.Error())
+		return
+	}
+	if sc.Engine == "stream" {
+		runStreamStress(sc, res)
 		return
 	}
 	measure.VerifSetManual(false)
